@@ -34,7 +34,10 @@ ASSUMPTIONS = ["gcc on the probe twin gives the number of dynamic evaluations of
 REQUIRED_HOOKS = ["H-log", "cli-runs"]
 
 UNKNOWN = ["#foo", "#foo bar baz", "#ident \"v1\"", "#assert machine(x86)", "#unassert machine", "#sccs \"x\"", "#import \"y.h\"",
-           "#elifdef X", "#pragma_once", "#include_next <q.h>", "#definex A 1"]
+           "#elifdef X", "#pragma_once", "#include_next <q.h>", "#definex A 1",
+           # names that are prefixes, substrings or case variants of directives the analysis knows or deliberately ignores
+           "#warn deprecated", "#err x", "#e", "#lin 3", "#in", "#or", "#errors on", "#warnings off", "#defin X 1", "#undefine X", "#els",
+           "#endi", "#if_ 1", "#Line 3", "#ERROR x", "#Pragma once", "#includes <a.h>", "#new", "#war"]
 BENIGN = ["#line 100", "#line 7 \"f.c\"", "#warning dead code", "#error never reached"]
 
 
@@ -47,7 +50,7 @@ def required_cells(tier):
             "dangling:same-name-two-dirs", "dangling:same-name-both-forms", "dangling:site-reached-by-2+-commands",
             "unknown-directive:live", "unknown-directive:dead", "benign-directive:dead", "db:missing-file", "db:unknown-compiler",
             "db:unknown-flags", "control:no-warnings", "totals-compared", "memo:failure-then-success-elsewhere",
-            "db:unknown-flags>80-characters", "dangling:below-depth>=64"]
+            "db:unknown-flags>80-characters", "dangling:below-depth>=64", "db:unknown-implicit-option-from-user-configuration"]
 
 
 def is_dangling(name):
@@ -137,7 +140,8 @@ def directive_sites(rendered_orig, rendered_twin, live_markers):
         for io, it in zip(ro.items, rt.items):
             if io["kind"] == "other" and not ro.text_lines[io["lines"][0] - 1].startswith("#pragma once"):
                 text = ro.text_lines[io["lines"][0] - 1]
-                cls = "benign" if any(text.startswith(b.split()[0]) for b in BENIGN) else "unknown"
+                name = re.match(r"#\s*(\w*)", text).group(1)          # directive names are whole, case-sensitive words
+                cls = "benign" if name in ("line", "warning", "error") else "unknown"
                 out.append((rel, io["lines"][0], text, cls, it.get("marker") in live_markers))
     return out
 
@@ -265,8 +269,10 @@ def judge(case, exp, warnings, root, db_expect):
     return problems
 
 
-def write_databases(case, base, rng, extras=True):
-    """Databases + analysis.toml; returns (toml name, db_expect counts)."""
+def write_databases(case, base, rng, extras=True, implicit_unknown=False):
+    """Databases + analysis.toml; returns (toml name, db_expect counts).
+    implicit_unknown: a user configuration (<root>/.cbi/config) gives gcc an implicit option the analysis does not know;
+    it is reported with every gcc command, together with that command's own unknown options."""
     root, out = forest.paths(base)
     by = {}
     exp = collections.Counter()
@@ -300,6 +306,15 @@ def write_databases(case, base, rng, extras=True):
                 exp.names["unknown-flags"][tuple(fl)] += 1
             if exp["unknown-compiler"] and comp != "gcc":
                 exp.names["unknown-compiler"][os.path.basename(comp)] += 1
+        if implicit_unknown and comp == "gcc":
+            mine = tuple(a for a in argv if a.startswith(("-fmystery", "--weird", "-Wfoo", "-qsomething", "--opt=", "--build-system-flag")))
+            if mine:
+                exp.names["unknown-flags"][mine] -= 1
+                if exp.names["unknown-flags"][mine] <= 0:
+                    del exp.names["unknown-flags"][mine]
+            else:
+                exp["unknown-flags"] += 1
+            exp.names["unknown-flags"][mine + ("-fmystery-option=7",)] += 1
         argv = [comp] + argv + ["-c", path]
         by.setdefault(tu["platform"], []).append({"file": path, "directory": os.path.dirname(path), "arguments": argv})
         if extras and rng.random() < 0.25:
@@ -316,6 +331,11 @@ def write_databases(case, base, rng, extras=True):
         lines.append(f"[platform.\"{p}\"]\ncommands = \"{dbp}\"\n")
     with open(os.path.join(root, "analysis.toml"), "w") as f:
         f.write("\n".join(lines))
+    shutil.rmtree(os.path.join(root, ".cbi"), ignore_errors=True)
+    if implicit_unknown:
+        os.makedirs(os.path.join(root, ".cbi"))
+        with open(os.path.join(root, ".cbi", "config"), "w") as f:
+            f.write('[compiler.gcc]\noptions = ["-DFROM_CONFIG=1", "-fmystery-option=7"]\n')
     return "analysis.toml", exp
 
 
@@ -328,7 +348,10 @@ def check_case(ctx, case, base, cls, via_cli, rng):
         acc.excluded("gcc-rejects-probe-twin", cls=cls)
         return
     cells = set(exp["cells"])
-    toml, db_expect = write_databases(case, base, rng, extras=(cls != "control"))
+    implicit_unknown = via_cli and cls != "control" and rng.random() < 0.35
+    toml, db_expect = write_databases(case, base, rng, extras=(cls != "control"), implicit_unknown=implicit_unknown)
+    if implicit_unknown and any("-fmystery-option=7" in k for k in db_expect.names["unknown-flags"]):
+        cells.add("db:unknown-implicit-option-from-user-configuration")
     for k, v in db_expect.items():
         if v:
             cells.add("db:" + k)
